@@ -44,6 +44,9 @@ def cases(draw, tier):
             X = [[0.0] * p for _ in range(n)]
         else:
             X, _ = draw(D.structured_matrix(n, p, boundary_positions=(bw, n - bw)))
+            unit = draw(st.sampled_from([1.0, 1.0, 1.0, 1e-3, 1e-6, 1e3]))
+            if unit != 1.0:
+                X = [[v * unit for v in row] for row in X]
     mdi = draw(st.integers(1, int(max(1, bw / 2 - 1))))
     scale = draw(st.sampled_from([0.3, 1.0, 0.0, 2.0, None]))
     if isinstance(sc, dict) and sc["cls"] in ("TableChangeScore", "FunctionChangeScore") and scale is not None:
@@ -51,7 +54,8 @@ def cases(draw, tier):
     integral = all(float(v).is_integer() for row in X for v in row)
     return {"params": {"change_score": sc, "bandwidth": bw, "threshold_scale": scale, "level": draw(K.level_strategy),
                        "min_detection_interval": mdi}, "X": X,
-            "as_int64": integral and draw(st.booleans())}
+            "as_int64": integral and draw(st.booleans()),
+            "n_train": draw(st.sampled_from([None, None, "shorter", "longer"]))}
 
 
 def model_scores(params, X):
@@ -72,8 +76,10 @@ def check(case):
     n, p = X.shape
     b = params["bandwidth"]
     Xin = X.astype(np.int64) if case.get("as_int64") else X  # integer-valued data may arrive as an integer array
+    from checks.c07 import training_data
+    Xtrain = training_data(Xin, case.get("n_train"), 2 * b, params["change_score"])
     with sut("MovingWindow.fit/transform_scores/predict"):
-        det = K.build(K.detector_spec("MovingWindow", params)).fit(Xin)
+        det = K.build(K.detector_spec("MovingWindow", params)).fit(Xtrain)
         scores = det.transform_scores(Xin)
         y = det.predict(Xin)
         thr = float(det.threshold_)
@@ -81,7 +87,7 @@ def check(case):
     if len(s) != n:
         raise Violation("scores do not have one entry per sample", got=len(s), n=n)
     want = model_scores(params, X)
-    tol = 1e-9 * (1 + np.abs(want))
+    tol = 1e-9 * (np.abs(want) + K.score_magnitude(params["change_score"], X, 2 * b))
     if np.any(np.abs(s - want) > tol):
         t = int(np.argmax(np.abs(s - want) - tol))
         raise Violation("score at t is not the change score between X[t-b:t] and X[t:t+b] (0 outside [b, n-b])",
@@ -93,10 +99,10 @@ def check(case):
         for t in range(b, n - b + 1):
             if sname in ("default", "CUSUM"):
                 d = float(OS.cusum_value(X, t - b, t, t + b).sum())
-                tol_d = 8 * (n + 1) ** 2 * ref.EPS * max(M, 1e-300) + 1e-9 * (1 + abs(d))
+                tol_d = 8 * (n + 1) ** 2 * ref.EPS * max(M, 1e-300) + 1e-9 * (abs(d) + K.score_magnitude({"cls": "CUSUM"}, X, 2 * b))
             else:
                 d = float(OS.change_score_value("L2Cost", None, X, t - b, t, t + b).sum())
-                tol_d = 4 * p * ref.error_bound(n, M) + 1e-9 * (1 + abs(d))
+                tol_d = 4 * p * ref.error_bound(n, M) + 1e-9 * (abs(d) + K.score_magnitude({"cls": "L2Cost"}, X, 2 * b))
             if abs(s[t] - d) > tol_d:
                 raise Violation("score differs from the definitional two-sided window statistic computed from the rows",
                                 t=t, bandwidth=b, reported=float(s[t]), definition=d)
@@ -126,6 +132,8 @@ def check(case):
         classes.append("tuned")
     if case.get("as_int64"):
         classes.append("int64_input")
+    if len(Xtrain) != n:
+        classes.append("fitted_on_other_length")
     if cpts:
         classes.append("has_changepoint")
     return {"nontrivial": bool(cpts), "classes": classes}
